@@ -328,6 +328,11 @@ def judge(case, part):
     # ... and along the base-unit routes, also starting from a quantity that already is in base units (nothing to rescale): what
     # in_base / in_mks / in_cgs hand back is converted in place; the quantity they were asked of must still be what it was
     for route, step in (("in_base", lambda q: q.in_base()), ("in_mks", lambda q: q.in_mks()), ("in_cgs", lambda q: q.in_cgs())):
+        if x.dtype.itemsize < 8:
+            # single precision: the detour through base units can leave the float32 range (0 * inf = nan) where A->C does not;
+            # that is arithmetic in a narrow type, not the subject of this clause
+            part.count("base-route chain not run on 32-bit data")
+            break
         for start in ("A", "A-in-base-units"):
             try:
                 src = x.copy() if start == "A" else getattr(x, route)().copy()
